@@ -339,6 +339,13 @@ pub fn rules_unit(ctx: &Ctx, rng: &mut Rng, o: &mut Out, share_vars: bool) {
         json!({"t": tid, "core": dump, "regex": rxt, "spec": spec, "nodes": node_ids}),
         json!(results),
       );
+      // C04 oracle: failed alternatives leave no trace — the result equals that of the rule with
+      // every sub-rule evaluated in isolation (Lean `Spec.isolate`, run by the driver)
+      o.op(
+        "oracle:isolate",
+        json!({"t": tid, "core": dump, "regex": rxt, "spec": spec, "nodes": node_ids, "fp": format!("isolate:{}", sat_fingerprint(&spec))}),
+        json!(results),
+      );
       if !share_vars {
         // C05 oracle: the reference semantics (Lean `Spec.sat`, run by the driver on the dumped
         // tree) must agree with the implementation's verdict on every node
